@@ -125,7 +125,7 @@ def _cty(ty):
 class GenSpec(FnSpec):
     def __init__(self, path, cls, method, name, requests=(), callouts=(), raises=(), objects=(), sees=None, interrupt=None,
                  binds=None, param_objects=(), iterables=(), idx_aliases=(), idx_reads=(), spin=False, **kw):
-        for bad in ("select", "stateops", "bindings", "guards", "aliases", "decorator", "ret"):
+        for bad in ("select", "guards", "aliases", "decorator", "ret"):
             if bad in kw:
                 raise ValueError(f"GenSpec: {bad} is not supported for generator bodies")
         super().__init__(path, cls, method, name, **kw)
@@ -475,6 +475,8 @@ class GenTr(FxTr):
         if isinstance(s, ast.While):
             return self.do_while(s, rest, env, k)
         if isinstance(s, ast.For):
+            if any(_match(pat, s, {}) for (pat, _, _) in self.stateops) or any(_match(pat, s, {}) for (pat, _, _, _) in self.bindings):
+                return super().block(stmts, env, k)              # a listed loop: its meaning is a parameter (translate.py)
             return self.do_for(s, rest, env, k)
         for (pat, name, ty) in self.idx_aliases:             # `store = self.stores[flow_id]`: an object known by its index
             binds = {}
@@ -823,6 +825,11 @@ def translate_gen(spec, state, record, prefix, effect_type):
     for (_, p, ty, _) in spec.draws:
         for q in ([p] if isinstance(p, str) else p):
             param(q, ty, COQ_TY[ty])
+    for (_, field, p) in spec.stateops:                      # as in translate.translate_fn
+        t = COQ_TY[dict(state)[field]]
+        param(p, "op:" + t, f"({t}) -> ({t})")
+    for (_, _, p, ty) in spec.bindings:
+        param(p, ty, COQ_TY[ty])
     rt = ([record] if state else []) + [f"list {effect_type}", spec.next_type]
     lines = open(spec.path).read().splitlines()
     for kpt in sorted(tr.konts):
